@@ -96,6 +96,9 @@ func mergeConfigDict(opts *options, to, from *Config) Error {
 	if len(dict) == 0 {
 		return nil
 	}
+	// (taken before to's dictionary is possibly reset below: to and from are
+	// the same config when a config is merged into itself)
+	keys := from.fields.sortedKeys()
 
 	ok := false
 	if opts.configValueHandling == cfgReplaceValue {
@@ -108,7 +111,7 @@ func mergeConfigDict(opts *options, to, from *Config) Error {
 		}()
 	}
 
-	for _, k := range from.fields.sortedKeys() {
+	for _, k := range keys {
 		v := dict[k]
 		ctx := context{
 			parent: cfgSub{to},
